@@ -40,7 +40,7 @@ def worker(kp, job):
             # half of the selections are unconstrained (they may drop durations, pitches, whole notes ...)
             free = rng.random() < 0.5
             if rng.random() < 0.7:
-                o['include'] = rng.sample(CATS, rng.randint(1, 10)) + ([] if free else ['DURATION', 'PITCH'])
+                o['include'] = rng.sample(CATS, rng.randint(0 if free else 1, 10)) + ([] if free else ['DURATION', 'PITCH'])
             if rng.random() < 0.6 or 'include' not in o:
                 pool = CATS if free else [c for c in CATS if c not in ('DURATION', 'PITCH', 'NOTE_REST', 'NOTE', 'CORE')]
                 o['exclude'] = rng.sample(pool, rng.randint(1, 4))
